@@ -263,7 +263,7 @@ fn main() {
             let pattern = data::unhex(&arg_val(&args, "--pattern").unwrap_or_else(|| "a40e".into())).unwrap_or_else(|e| harness_error(&e));
             let seed = parse_u64(&arg_val(&args, "--seed").unwrap_or_else(|| "1".into()));
             let total = parse_u64(&arg_val(&args, "--total").unwrap_or_else(|| "4224281216".into()));
-            let (code, rep) = c11big::big_reader(variant, &pattern, seed, total);
+            let (code, rep) = c11big::big_reader(variant, &pattern, seed, total, args.iter().any(|a| a == "--fail-at-end"));
             println!("{}", serde_json::to_string(&rep).unwrap());
             code
         }
